@@ -88,6 +88,12 @@ PROPS = {
         "trusted_base": ["oracle: Rust std f64 <-> decimal text (the harness passes parse::<f64>/to_string results to the model as a table)"],
         "assumptions": ["RespParser is driven as the server drives it: feed, then parse until None or Err"],
     },
+    "C12": {
+        "n": {"quick": 200, "thorough": 3000}, "diff_is_failure": True, "judge": True, "trivial_outs": {"i1", ""}, "shards": 8,
+        "rule": "TODO",
+        "explanation": "TODO",
+        "trusted_base": SRV_TB, "assumptions": [],
+    },
     "C14": {
         "n": {"quick": 600, "thorough": 8000},
         "judge": True,
